@@ -1569,10 +1569,11 @@ class Interp:
             if vt is not None:
                 return V("list", vt, items=None, labels=it.labels | elt.labels, orig=frozenset([FRESH]), extra=("comp", elt, tuple(it.shape)), loc=fresh_id())
         it_term = it.term
-        if n is not None and n.known() and it.kind in ("arr", "list", "enumerate", "zip") and elt.kind == "arr" and elt.shape is not None and len(elt.shape) >= 1:
+        if n is not None and n.known() and it.kind in ("arr", "list", "enumerate", "zip") and (it.kind != "list" or it.items is None):
             # elements are read through the position lv(L): the iterable matters only by its length
             it_term = T("range", self.api.dim_term(Dim(0)), self.api.dim_term(n))
-            self.vtab.setdefault(elt.term, elt)
+            if elt.kind == "arr" and elt.shape is not None:
+                self.vtab.setdefault(elt.term, elt)
         term = T("comp", lid, it_term, elt.term, *cond_terms)
         n_items = self.api.length_dim(self, it) if not cond_terms else None
         shape = None
